@@ -470,6 +470,21 @@ func (p *sessionPort) exec(f []string) []string {
 			p.cur.mu.Unlock()
 		}
 		return nil
+	case "cpol": // cpol g : Close of the current connection takes effect only at `cgo`
+		if p.cur != nil {
+			p.cur.mu.Lock()
+			p.cur.closeGate = f[1] == "g"
+			p.cur.mu.Unlock()
+		}
+		return nil
+	case "cgo":
+		for _, c := range p.conns {
+			c.mu.Lock()
+			c.closeGate = false
+			c.cond.Broadcast()
+			c.mu.Unlock()
+		}
+		return p.flush(nil, true)
 	case "mstate":
 		return []string{"mstate"}
 	case "brk":
